@@ -141,6 +141,8 @@ func buildOps(mode string) []op {
 			err := crypthash.Unmarshal("a=q$b=5$zz$more", &v)
 			return res(fmt.Sprint(v), err)
 		}},
+		op{"Marshal failing prefix", func() string { s, err := crypthash.Marshal(failPrefix{failText("fail"), "x"}); return res(s, err) }},
+		op{"Marshal good prefix", func() string { s, err := crypthash.Marshal(failPrefix{failText("$ok$"), "salt"}); return res(s, err) }},
 		op{"Marshal bad tag", func() string { s, err := crypthash.Marshal(badTag{"x"}); return res(s, err) }},
 		op{"Unmarshal bad tag", func() string { var v badTag; err := crypthash.Unmarshal("x", &v); return res(nil, err) }},
 	)
@@ -214,6 +216,21 @@ func freshTypeOps(k int, only int) (string, []op) {
 		ops = ops[only : only+1]
 	}
 	return fname, ops
+}
+
+// a prefix type whose MarshalText fails for one value (the error path of the prefix) and works for others
+type failText string
+
+func (f failText) MarshalText() ([]byte, error) {
+	if f == "fail" {
+		return nil, fmt.Errorf("no text for this prefix")
+	}
+	return []byte(f), nil
+}
+
+type failPrefix struct {
+	HashPrefix failText
+	S          string
 }
 
 type report struct {
